@@ -9,9 +9,41 @@ let num_canon (n : n list) : n list =
 let canon v = canonicalize num_canon v
 let canon_text v = match compact_print (canon v) with Some t -> tok_of_cps t | None -> "MODEL-PANIC"
 
+
+(* canonicalize, edit the root object (list semantics of Spec/Multimap), canonicalize again *)
+let apply_edit (es : (n list * value) list) (op : str) : (n list * value) list =
+  match Stdlib.String.split_on_char ':' op with
+  | ["pf"; k; n] -> fst (m_push_front es (cps_of_tok k, VNum (cps_of_tok n)))
+  | ["pb"; k; n] -> fst (m_push es (cps_of_tok k, VNum (cps_of_tok n)))
+  | ["in"; k; n] -> fst (m_insert es (cps_of_tok k) (VNum (cps_of_tok n)))
+  | ["if"; k; n] -> fst (m_insert_front es (cps_of_tok k) (VNum (cps_of_tok n)))
+  | ["rm"; k] -> fst (m_remove es (cps_of_tok k))
+  | ["ra"; i] -> fst (m_remove_at es (nat_of_int (int_of_string i)))
+  | ["st"] -> (match sort { entries = es; buckets = [] } with
+               | Some o -> o.entries
+               | None -> raise (Bad_case "sort"))
+  | ["cl"] -> es
+  | ["cn"] -> (match canon (VObj es) with VObj l -> l | _ -> es)
+  | _ -> raise (Bad_case "edit")
+
+let ke toks =
+  match toks with
+  | "ke" :: "|" :: r ->
+    let (v, r1) = dec_value r in
+    (match r1 with
+     | "|" :: ops ->
+       let v1 = canon v in
+       let v2 = (match v1 with VObj es -> VObj (List.fold_left apply_edit es ops) | x -> x) in
+       let text = canon_text v2 in
+       (Printf.sprintf "%s index=1 edited=%s" text (value_str v2),
+        Printf.sprintf "%s index=1 edited=%s" (match jcs v2 with Some t -> tok_of_cps t | None -> "NOT-IJSON") (value_str v2))
+     | _ -> raise (Bad_case "ke"))
+  | _ -> raise (Bad_case "ke")
+
 let c09 toks =
   try
     match toks with
+    | "ke" :: _ -> ke toks
     | ["kn"; h] ->
       let n = cps_of_tok h in
       (tok_of_cps (num_canon n), (match canon_number n with Some t -> tok_of_cps t | None -> "NOT-IJSON"))
@@ -24,6 +56,7 @@ let c09 toks =
 let c10 toks =
   try
     match toks with
+    | "ke" :: _ -> ke toks
     | "k" :: "|" :: vt ->
       let (v, _) = dec_value vt in
       let once = canon v in
